@@ -13,7 +13,7 @@ namespace Conc
 the two documented ownership transfers, the mutating methods of helper sets and the
 continuation of a running `Walk` (which appends to the walk's own path buffer) -/
 def readOnlyApi : Api → Bool
-  | .numberVal _ | .tupleType _ | .vsAdd .. | .vsRemove .. | .psAdd .. | .psRemove .. | .walkNext _ => false
+  | .numberVal _ | .tupleType _ | .vsAdd .. | .vsRemove .. | .psAdd .. | .psRemove .. | .psAddAllSteps .. | .walkNext _ => false
   | _ => true
 
 /-- caller actions that only allocate -/
@@ -93,20 +93,26 @@ structure Cfg where
   todo : Nat → List HeapOp
   out : Nat → List (Option St) := fun _ => []
 
-/-- the scheduler picks goroutine `i`: its next step runs on the global heap -/
-def tick (n : Nat) (c : Cfg) (i : Nat) : Cfg :=
+/-- the scheduler picks goroutine `i`: its next step (`f` = the step function) runs on
+the global heap -/
+def tickWith (f : St → HeapOp → Option St) (c : Cfg) (i : Nat) : Cfg :=
   match c.todo i with
   | [] => c
   | op :: rest =>
-    match gstep n { c.regs i with mem := c.mem } op with
+    match f { c.regs i with mem := c.mem } op with
     | some st' =>
       { mem := st'.mem, regs := Interleave.upd c.regs i st', todo := Interleave.upd c.todo i rest,
         out := Interleave.upd c.out i (c.out i ++ [some st']) }
     | none => { c with todo := Interleave.upd c.todo i rest, out := Interleave.upd c.out i (c.out i ++ [none]) }
 
-def exec (n : Nat) (c : Cfg) : List Nat → Cfg
+def execWith (f : St → HeapOp → Option St) (c : Cfg) : List Nat → Cfg
   | [] => c
-  | i :: s => exec n (tick n c i) s
+  | i :: s => execWith f (tickWith f c i) s
+
+/-- with the guarded step: a step whose write set reaches into the first `n` objects is not admitted -/
+def tick (n : Nat) (c : Cfg) (i : Nat) : Cfg := tickWith (gstep n) c i
+
+def exec (n : Nat) (c : Cfg) (s : List Nat) : Cfg := execWith (gstep n) c s
 
 def start (st0 : St) (progs : Nat → List HeapOp) : Cfg := { mem := st0.mem, regs := fun _ => st0, todo := progs }
 
